@@ -27,7 +27,14 @@ import (
 )
 
 var interpolateTypeCastMapping = map[tree.Path]interp.Cast{
-	servicePath("configs", tree.PathMatchList, "mode"):             toInt,
+	servicePath("configs", tree.PathMatchList, "mode"):                                                                             toInt,
+	servicePath("blkio_config", "weight"):                                                                                          toInt,
+	servicePath("blkio_config", "weight_device", tree.PathMatchList, "weight"):                                                     toInt,
+	servicePath("build", "ulimits", tree.PathMatchAll):                                                                             toInt,
+	servicePath("build", "ulimits", tree.PathMatchAll, "hard"):                                                                     toInt,
+	servicePath("build", "ulimits", tree.PathMatchAll, "soft"):                                                                     toInt,
+	servicePath("deploy", "resources", "reservations", "generic_resources", tree.PathMatchList, "discrete_resource_spec", "value"): toInt64,
+	servicePath("volumes", tree.PathMatchList, "tmpfs", "mode"):                                                                    toInt,
 	servicePath("cpu_count"):                                       toInt64,
 	servicePath("cpu_percent"):                                     toFloat,
 	servicePath("cpu_period"):                                      toInt64,
